@@ -139,13 +139,32 @@ def quaternion_roundtrip(ctx):
     ctx.check_eq('roundtrip2', r.from_vector(r.as_vector()).h_matrix, r.h_matrix)
 
 
-@contract('C20', 'axis_angle_3d', configs=[{}], level='bounded', native_samples=80, tol=1e-6,
+AXES = {'generic': None, 'x': (1, 0, 0), 'y': (0, 1, 0), 'z': (0, 0, 1), '-x': (-1, 0, 0), '-z': (0, 0, -1), 'xy-diagonal': (1, 1, 0), 'yz-diagonal': (0, 1, 1),
+        'space-diagonal': (1, 1, 1)}
+
+
+@contract('C20', 'axis_angle_3d', configs=[dict(axis=a) for a in AXES], level='bounded', native_samples=20, tol=1e-6,
           functions=['menpo.transform.homogeneous.rotation:Rotation._axis_and_angle_of_rotation_3d'])
-def axis_angle_3d(ctx):
+def axis_angle_3d(ctx, axis='generic'):
     """bounded stand-in (np.linalg.eig + np.random inside the code): the
-    reported axis and angle reconstruct the rotation (Rodrigues formula)."""
+    reported axis and angle reconstruct the rotation (Rodrigues formula) -
+    generic axes and rotations exactly about the coordinate axes / diagonals,
+    built from a quaternion and through the ccw constructors."""
     T, S = B.menpo_mods()
     q = np.array(B.unit_quat(ctx, 'q'), dtype=float)
+    if AXES[axis] is not None:
+        a = np.array(AXES[axis], dtype=float)
+        a /= np.linalg.norm(a)
+        half = np.arctan2(np.linalg.norm(q[1:]), q[0])
+        q = np.concatenate([[np.cos(half)], np.sin(half) * a])
+        if axis in ('x', 'y', 'z'):
+            deg = float(np.rad2deg(2 * half))
+            if 12 < abs(deg) % 180 < 168:
+                ctor = getattr(T.Rotation, 'init_from_3d_ccw_angle_around_' + axis)
+                rr = ctor(deg)
+                ax2, ph2 = rr.axis_and_angle_of_rotation()
+                K2 = np.array([[0, -ax2[2], ax2[1]], [ax2[2], 0, -ax2[0]], [-ax2[1], ax2[0], 0]])
+                ctx.check_eq('ccw-constructor-about-%s/rodrigues-reconstructs' % axis, np.eye(3) + np.sin(ph2) * K2 + (1 - np.cos(ph2)) * K2.dot(K2), rr.rotation_matrix)
     # away from the identity and from half turns
     ang = 2 * np.arccos(min(1.0, abs(q[0])))
     ctx.assume(0.2 < ang < np.pi - 0.2)
